@@ -11,8 +11,11 @@
     Every sequence is run with the scratch-built tools on a small populated image; after every step every candidate backup
     location is read by an independent parser (this module + lib/sbparse.py) and logged; at the end, for every prescribed
     location, a copy of the image gets its primary superblock and descriptors zeroed and is recovered with
-    `e2fsck -fy -b LOC -B BS` (and plain `e2fsck -fy` when blocks-per-group = 8 * blocksize), then `e2fsck -fn`, then the
-    tree digest of the independent reader.  TLC decides every line against Trace_Backups (the step must be the one the
+    `e2fsck -fy -b LOC -B BS` (and plain `e2fsck -fy` when the group size is the default one, min(8 * blocksize, 65528)),
+    then `e2fsck -fn`, then the tree digest of the independent reader.  e2fsck's own search for a backup (get_backup_sb:
+    loop over block sizes, guessed group size, probe arithmetic) is transcribed in Backups.tla (constants in
+    BackupSearch.tla); the universe ranges over every block size of the format (1k ... 64k, sparse images) for the
+    recovery clauses, and the quick tier always contains every block size with both front ends.  TLC decides every line against Trace_Backups (the step must be the one the
     spec action takes from the current spec state, invariants evaluated in every state)."""
 import os, sys, json, random, shutil, hashlib, struct, time, re, concurrent.futures as cf
 from common import VERIF, fast_tmp, seed, die_broken, NPROC, tool_env
@@ -144,6 +147,16 @@ def observe(path):
                     if g < s["gdc"]:
                         omg.append({"m": m, "k": k, "v": _desc_digest(f, blk, geo, m)})
     return {"prim": {"sb": s, "gd": gd}, "osb": osb, "ogd": ogd, "omg": omg}, geo
+
+
+def geo3(geo):
+    """the three geometry fields the spec's search arithmetic needs (all < 2^31)"""
+    return {"bs": geo["bs"], "bpg": geo["bpg"], "first": geo["first"]}
+
+
+def default_bpg(bs):
+    """only used for replay files written before the universe carried the `plain` flag (the obligation itself is the spec's PlainObliged)"""
+    return min(8 * bs, 65528)
 
 
 def prescribed(s):
@@ -379,7 +392,10 @@ def mk_image(b, geom, img, trees):
     blocks = first + n * bpg
     big = blocks * bs >= 6 << 20
     args = PROFILE_ARGS[geom["prof"]].split()
-    if geom["prof"] in JOURNAL_PROFILES and blocks * bs >= 4 << 20:
+    # 8k ... 64k blocks: groups of 0.5 ... 4 GiB in a sparse file; a fixed small inode count keeps the inode tables (which
+    # mke2fs zeroes) small, and no journal (>= 1024 blocks of real writes)
+    huge = bs > 4096
+    if geom["prof"] in JOURNAL_PROFILES and blocks * bs >= 4 << 20 and not huge:
         args += ["-J", "size=%d" % (1 if bs == 1024 else 4 if bs == 4096 else 2)]
     else:
         args += ["-O", "^has_journal"]
@@ -388,7 +404,7 @@ def mk_image(b, geom, img, trees):
     with open(img, "wb") as f:
         f.truncate(blocks * bs)
     cmd = [os.path.join(b, "misc", "mke2fs"), "-q", "-F", "-U", UUID0, "-E", "hash_seed=" + HASH_SEED, "-b", str(bs), "-g", str(bpg),
-           "-i", "4096"] + args + ["-d", trees[1 if big else 2 if blocks * bs < (1 << 20) else 0], img, str(blocks)]
+           ] + (["-N", str(128 * n)] if huge else ["-i", "4096"]) + args + ["-d", trees[1 if big else 2 if blocks * bs < (1 << 20) else 0], img, str(blocks)]
     rc, out, err = sh(cmd, env=env, timeout=120)
     if rc != 0:
         return "mke2fs exit %d: %s" % (rc, err.decode("utf8", "replace")[-200:])
@@ -400,9 +416,26 @@ def mk_image(b, geom, img, trees):
 
 def tree_digest(img):
     """digest of the user-visible tree as the independent reader sees it ('' + reason when the reader cannot read it)"""
-    import ext4read
+    import ext4read, mmap
     try:
-        p = ext4read.project(img)
+        if os.path.getsize(img) > (64 << 20):
+            # sparse images of 8k ... 64k-block filesystems (GiBs of holes): the shared reader loads the first GiB of an
+            # image into memory; give it a memory map of the whole file instead (it only ever slices self.img)
+            class _MappedReader(ext4read.Reader):
+                MAX_IMAGE = 0
+
+                def __init__(self, path, offset=0):
+                    super().__init__(path, offset)           # reads nothing, sets up the bookkeeping
+                    self._f = open(path, "rb")
+                    self.img = mmap.mmap(self._f.fileno(), 0, access=mmap.ACCESS_READ)
+                    self.size = len(self.img)
+            r = _MappedReader(img)
+            try:
+                p = r.project()
+            finally:
+                r.img.close(); r._f.close()
+        else:
+            p = ext4read.project(img)
     except Exception as e:                                   # reader limitation: never a verdict
         return "", "reader exception %s" % type(e).__name__
     if "fatal" in p:
@@ -510,7 +543,7 @@ def recover(b, img, work, tag, obs, geo, g, tree_pre, plain=False):
         rc2, out2, err2 = sh([fsck, "-fn", cp], env=env, timeout=300)
         post, _ = observe(cp)
         tp, terr = tree_digest(cp) if post is not None else ("", "primary unreadable")
-        line = {"e": "plain" if plain else "recover", "g": g, "blk": blk, "rc": rc if 0 <= rc < 200 else 255, "fn": rc2 if 0 <= rc2 < 200 else 255,
+        line = {"e": "plain" if plain else "recover", "g": g, "blk": blk, "geo": geo3(geo), "rc": rc if 0 <= rc < 200 else 255, "fn": rc2 if 0 <= rc2 < 200 else 255,
                 "tree_pre": tree_pre, "tree_post": tp if tp else "unreadable: " + terr, "parsed": 1 if post is not None else 0,
                 "obs": post if post is not None else DUMMY_OBS}
         return line, txt[-700:], (out2 + err2).decode("utf8", "replace")[-400:]
@@ -535,7 +568,7 @@ def run_case(args):
         if obs is None:
             info["stopped"] = "mkfs: primary superblock does not parse / outside the modelled formats"
             return {"lines": [], "info": info}
-        lines.append({"e": "mkfs", "obs": obs, "fn": 0})
+        lines.append({"e": "mkfs", "obs": obs, "fn": 0, "geo": geo3(geo)})
         done = []
         for op in ops:
             keep = img + ".pre"
@@ -558,7 +591,7 @@ def run_case(args):
                 if o2 is None:
                     bad = "primary superblock unreadable / outside the modelled formats after %s" % ev
                     break
-                new.append(dict({"e": ev, "obs": o2, "fn": 0}, **extra))
+                new.append(dict({"e": ev, "obs": o2, "fn": 0, "geo": geo3(g2)}, **extra))
                 obs, geo = o2, g2
             if bad:
                 os.replace(keep, img)
@@ -600,7 +633,7 @@ def run_case(args):
                 line["tree_post"] = "unknown"
             lines.append(line)
             info["detail"][len(lines) - 1] = (txt, txt2)
-        if geo["bpg"] == 8 * geo["bs"] and s["gdc"] > 1:
+        if geom.get("plain", geo["bpg"] == default_bpg(geo["bs"])) and s["gdc"] > 1:
             line, txt, txt2 = recover(b, img, work, tag, obs, geo, 0, tree_pre, plain=True)
             if tree_pre == "unknown":
                 line["tree_post"] = "unknown"
@@ -631,11 +664,35 @@ def load_universe(work):
     ops = [sorted(ops[i], key=op_key) for i in order]
     if len({geom_key(g) for g in geoms}) != len(geoms):
         die_broken("duplicate geometries in the universe")
-    return geoms, ops
+    bsz = sorted(u["bsizes"])
+    if not bsz or set(u["bboundary"]) - set(bsz):
+        die_broken("the universe carries no block-size set / an inconsistent boundary catalogue")
+    return geoms, ops, bsz, sorted(u["bboundary"])
 
 
-def sequences(tier, geoms, ops, rng):
+def per_blocksize(geoms, ops, bsizes, bboundary):
+    """The block-size part of the fixed quick universe, derived from the spec's block-size set: for EVERY block size the
+    smallest default-group-size sparse_super geometry with >= 2 groups and the run `damaged primary descriptors ; e2fsck -fy`
+    (get_backup_sb with a known superblock), followed like every behaviour by `e2fsck -b` from every location and plain
+    e2fsck on a destroyed primary (get_backup_sb without a superblock); for every BOUNDARY block size also a 4-group flex_bg
+    geometry after tune2fs -U (locations 1 and 3)."""
+    out = []
+    for bs in bsizes:
+        for prof, nmin, opk in (("sparse", 2, "fsck:primgd"),) + ((("flex", 4, "uuid:A"),) if bs in bboundary else ()):
+            c = [gi for gi in range(len(geoms)) if geoms[gi]["bs"] == bs and geoms[gi]["prof"] == prof and geoms[gi].get("plain") and geoms[gi]["groups"] >= nmin]
+            if not c:
+                die_broken("Emit_Backups has no default-group-size %s geometry with >= %d groups for block size %d" % (prof, nmin, bs))
+            gi = min(c, key=lambda i: geoms[i]["groups"])
+            o = [x for x in ops[gi] if op_key(x) == opk]
+            if len(o) != 1:
+                die_broken("Emit_Backups: op %s missing for %s" % (opk, geom_key(geoms[gi])))
+            out.append((gi, o))
+    return out
+
+
+def sequences(tier, geoms, ops, rng, bsizes, bboundary):
     singles = [(gi, [o]) for gi in range(len(geoms)) for o in ops[gi]]
+    perbs = per_blocksize(geoms, ops, bsizes, bboundary)
     npairs = sum(len(o) ** 2 for o in ops)
     ntriples = sum(len(o) ** 3 for o in ops)
 
@@ -679,8 +736,9 @@ def sequences(tier, geoms, ops, rng):
         kops = [[o for o in ops[gi] if op_key(o) == k] for gi in kf for k in ("resize:50", "fsck:primgd")]
         if len(kf) != 1 or any(len(x) != 1 for x in kops):
             die_broken("the known-finding element is no longer inside Emit_Backups")
-        seqs = must + [(kf[0], [kops[0][0], kops[1][0]])] + seqs
-    return seqs, dict(singles=len(singles), pairs=npairs, triples=ntriples, fixed_singles_in_quick=(len(must) if tier != "thorough" else 0))
+        seqs = must + [x for x in perbs if x not in must] + [(kf[0], [kops[0][0], kops[1][0]])] + seqs
+    return seqs, dict(singles=len(singles), pairs=npairs, triples=ntriples, fixed_singles_in_quick=(len(must) if tier != "thorough" else 0),
+                      block_sizes=bsizes, block_size_boundaries=bboundary, per_block_size_fixed=len(perbs))
 
 
 def model_check(tier, ev, vd):
@@ -695,7 +753,19 @@ def model_check(tier, ev, vd):
             vd.violation("model:" + r.violated, "Backups model (%s): %s violated" % (c, r.violated), {"tlc": r.out[-4000:]})
         elif not r.ok:
             die_broken("TLC failed on MC_Backups (%s): %s\n%s" % (c, r.error, r.out[-1500:]))
+    # the block-size dimension: every block size of the format with its default group size (+ a non-default group size at both
+    # ends), small group counts, one tool run, both recovery front ends (RecoverFrom, RecoverPlain) and the fall-back search
+    r = T.tlc(mod, os.path.join(SPEC, "MC_Backups_sizes.cfg"), workers=2, timeout=900, xmx="2g")
+    ev.add_tlc(r, "MC_Backups (MC_Backups_sizes.cfg): every block size 1k ... 64k x default / non-default group size x <= 5 groups x one tool run; same invariants")
+    if r.violated:
+        vd.violation("model:sizes:" + r.violated, "Backups model (MC_Backups_sizes.cfg): %s violated" % r.violated, {"tlc": r.out[-4000:]})
+    elif not r.ok:
+        die_broken("TLC failed on MC_Backups (MC_Backups_sizes.cfg): %s\n%s" % (r.error, r.out[-1500:]))
     ces = []
+    r4 = T.tlc(mod, os.path.join(SPEC, "MC_Backups_DevSearchGuesses8xBs.cfg"), workers=2, timeout=600, xmx="2g")
+    if r4.violated != "InvRecover":
+        die_broken("the model with DevSearchGuesses8xBs = TRUE did not produce the InvRecover counterexample (%s %s)" % (r4.violated, r4.error))
+    ces.append("DevSearchGuesses8xBs (InvRecover)")
     for dev in ("DevTuneMasterOnly", "DevFsckIgnoresFeatDiff", "DevFlushSkipsLast", "DevResizeKeepsOldGdt"):
         r2 = T.tlc(mod, os.path.join(SPEC, "MC_Backups_%s.cfg" % dev), workers=2, timeout=600, xmx="2g")
         if r2.violated != "InvCurrent":
@@ -709,9 +779,59 @@ def model_check(tier, ev, vd):
 
 
 TR_MOD = os.path.join(SPEC, "Trace_Backups.tla")
-TR_CFG = os.path.join(SPEC, "Trace_Backups.cfg")                     # conformance: the known deviation DevBackupSearchIgnoresSs2 enabled
+TR_CFG = os.path.join(SPEC, "Trace_Backups.cfg")                     # conformance: the named deviations of e2fsck's backup search enabled
 TR_STRICT = os.path.join(SPEC, "Trace_Backups_strict.cfg")           # the property as stated (every deviation off)
 DEV_KEY = "DevBackupSearchIgnoresSs2"
+# a behaviour the strict cfg rejects is attributed BY TLC: it is validated again with exactly one deviation enabled
+DEV_ONLY = [("DevSearchGuesses8xBs", os.path.join(SPEC, "Trace_Backups_only_8x.cfg")),
+            ("DevBackupSearchIgnoresSs2", os.path.join(SPEC, "Trace_Backups_only_ss2.cfg"))]
+
+
+def validate_rounds(behaviours, cfg, work, chunk_lines=160, jobs=3, timeout=900):
+    """tracecheck.validate for passes in which rejections are EXPECTED (strict cfg, attribution): a TLC run stops at the first
+    rejected behaviour of its chunk; the behaviours behind it are validated again as ONE new chunk in the next round (the
+    library starts one JVM per remaining behaviour), so the number of TLC runs is chunks + rejections.  Same result format."""
+    chunks, cur, n = [], [], 0
+    for bi, bl in enumerate(behaviours):
+        if cur and n + len(bl) > chunk_lines:
+            chunks.append(cur); cur = []; n = 0
+        cur.append(bi); n += len(bl)
+    if cur:
+        chunks.append(cur)
+    failures, broken, tot_d, tot_g, rounds, nchunks = [], [], 0, 0, 0, len(chunks)
+    while chunks:
+        rounds += 1
+        tasks = []
+        for ci, ch in enumerate(chunks):
+            path = os.path.join(work, "vr_%d_%d_%d.ndjson" % (os.getpid(), rounds, ci))
+            with open(path, "w") as f:
+                for bi in ch:
+                    for ln in behaviours[bi]:
+                        f.write(ln if ln.endswith("\n") else ln + "\n")
+            tasks.append((TR_MOD, cfg, path, sum(len(behaviours[bi]) for bi in ch), timeout, False))
+        with cf.ThreadPoolExecutor(max_workers=jobs) as ex:
+            rs = list(ex.map(tracecheck._run_chunk, tasks))
+        nxt = []
+        for ch, r in zip(chunks, rs):
+            tot_d += r["distinct"]; tot_g += r["generated"]
+            if r["accepted"]:
+                continue
+            if r["error"] and r["violated"] is None:
+                broken.append(r); continue
+            m = r["matched"] if r["matched"] is not None else 0
+            pos, hit = 0, None
+            for bi in ch:
+                if m < pos + len(behaviours[bi]):
+                    hit = bi; break
+                pos += len(behaviours[bi])
+            if hit is None:
+                hit = ch[-1]; pos -= len(behaviours[hit])
+            failures.append(dict(behaviour=hit, line_in_behaviour=m - pos, violated=r["violated"], chunk=r["path"], tail=r["out_tail"]))
+            rest = ch[ch.index(hit) + 1:]
+            if rest:
+                nxt.append(rest)
+        chunks = nxt
+    return dict(chunks=nchunks, failures=failures, broken=broken, distinct=tot_d, generated=tot_g)
 
 
 def behaviour_lines(res):
@@ -755,9 +875,9 @@ def run(tier):
         except RuntimeError as e:
             die_broken(str(e))
         trees = make_trees(work)
-        geoms, ops = load_universe(work)
+        geoms, ops, bsizes, bboundary = load_universe(work)
         rng = random.Random(seed())
-        seqs, usizes = sequences(tier, geoms, ops, rng)
+        seqs, usizes = sequences(tier, geoms, ops, rng, bsizes, bboundary)
         maxloc = 5 if tier == "quick" else 0
         with cf.ThreadPoolExecutor(max_workers=1) as bg:
             mc = bg.submit(model_check, tier, ev, vd)
@@ -798,26 +918,50 @@ def run(tier):
         # rejection there (and only at such a line) is the known finding, routed through its key
         cand = [i for i in live if i not in failed and any(l["e"] == "plain" or (l["e"] == "fsck" and l.get("frombackup") == 1) for l in res[i]["lines"])]
         dev_hits = []
+        strict_rejected = set()
         if cand:
-            out2 = tracecheck.validate([behaviour_lines(res[i]) for i in cand], TR_MOD, TR_STRICT, work, chunk_lines=160, timeout=900, jobs=3)
+            out2 = validate_rounds([behaviour_lines(res[i]) for i in cand], TR_STRICT, work)
             if out2["broken"]:
                 die_broken("TLC failed on a trace chunk (strict cfg): %s\n%s" % (out2["broken"][0]["error"], out2["broken"][0]["out_tail"][-1800:]))
             ev.cov["states"] += out2["distinct"]; ev.cov["transitions"] += out2["generated"]
+            rejected = []
             for f in out2["failures"]:
                 ci = cand[f["behaviour"]]
                 li = f["line_in_behaviour"]
                 l = res[ci]["lines"][li] if li < len(res[ci]["lines"]) else {}
                 if not (l.get("e") == "plain" or (l.get("e") == "fsck" and l.get("frombackup") == 1)) or f["violated"]:
                     die_broken("the strict trace cfg rejects %s / %s at line %d (%s), which is not a backup-search line" % (geom_key(geoms[seqs[ci][0]]), [op_key(x) for x in seqs[ci][1]], li, l.get("e")))
+                if ci not in strict_rejected:
+                    strict_rejected.add(ci)
+                    rejected.append((ci, li, l))
+            # which named deviation explains a rejection is decided by TLC: the rejected behaviours are validated again with
+            # exactly one deviation enabled (the conformance cfg, which enables all of them, accepted them in the first pass)
+            explains = {ci: [] for ci, li, l in rejected}
+            todo = list(rejected)
+            for dk, dcfg in DEV_ONLY:
+                if not todo:
+                    break
+                out3 = validate_rounds([behaviour_lines(res[ci]) for ci, li, l in todo], dcfg, work)
+                if out3["broken"]:
+                    die_broken("TLC failed while attributing a strict-cfg rejection (%s): %s" % (dk, out3["broken"][0]["error"]))
+                ev.cov["states"] += out3["distinct"]; ev.cov["transitions"] += out3["generated"]
+                bad3 = {f["behaviour"] for f in out3["failures"]}
+                for k, (ci, li, l) in enumerate(todo):
+                    if k not in bad3:
+                        explains[ci].append(dk)
+                todo = [t for k, t in enumerate(todo) if k in bad3]
+            for ci, li, l in rejected:
                 gi, o = seqs[ci]
+                keys = explains[ci] or [dk for dk, dcfg in DEV_ONLY]  # needs more than one of them
                 if l["e"] == "plain":
                     what = "plain e2fsck -fy after the primary was destroyed: exit %d, e2fsck -fn %d, tree %s" % (l["rc"], l["fn"], "same" if l["tree_post"] == l["tree_pre"] else "CHANGED")
                 else:
                     s2 = l["obs"]["prim"]["sb"]
                     what = "e2fsck -fy fell back to a stale copy: the filesystem now has %d groups, s_backup_bgs %s" % (s2["gdc"], s2["bk"])
-                dev_hits.append("%s | %s" % (geom_key(geoms[gi]), ";".join(res[ci]["info"].get("done", []))))
-                vd.violation(DEV_KEY, "%s, %s -> %s" % (geom_key(geoms[gi]), " ; ".join(res[ci]["info"].get("done", [])) or "mke2fs", what),
-                             {"geom": geoms[gi], "ops": o, "line_index": li, "line": l, "tool_output": res[ci]["info"]["detail"].get(li, "")})
+                for dk in keys:
+                    dev_hits.append("%s: %s | %s" % (dk, geom_key(geoms[gi]), ";".join(res[ci]["info"].get("done", []))))
+                    vd.violation(dk, "%s, %s -> %s [accepted only with %s]" % (geom_key(geoms[gi]), " ; ".join(res[ci]["info"].get("done", [])) or "mke2fs", what, dk),
+                                 {"geom": geoms[gi], "ops": o, "line_index": li, "line": l, "tool_output": res[ci]["info"]["detail"].get(li, "")})
         ev.cov["strict_pass_behaviours"] = len(cand)
         ev.cov["known_deviation_hits"] = sorted(set(dev_hits))[:60]
         # ---- evidence
@@ -826,7 +970,7 @@ def run(tier):
         ev.cov["evaluations"] = nlines
         ev.cov["behaviours"] = len(live)
         ev.cov["traces_validated_against_impl"] = len(live) - len(failed)
-        ev.cov["traces_also_accepted_by_the_strict_cfg"] = len(cand) - len(set(dev_hits))
+        ev.cov["traces_also_accepted_by_the_strict_cfg"] = len(cand) - len(strict_rejected)
         ev.cov["recoveries"] = nrec
         ev.cov["plain_e2fsck_recoveries"] = sum(1 for r in res for l in r["lines"] if l["e"] == "plain")
         ev.cov["tool_lines"] = nlines - nrec
@@ -857,7 +1001,7 @@ def run(tier):
                 if l["e"] == "recover" and l["g"] != 1:
                     ev.nontrivial((g, last.split(":")[0], l["g"]))
         ev.cov["rule"] = ("universe = Emit_Backups: %d geometries x Ops(geometry)^(<=3) x every prescribed backup location of the final image; "
-                          "quick = 28 fixed singles + 1 fixed pair + one seeded single per (profile, op kind) up to 38 + 10 seeded pairs + 8 seeded triples, at most 5 locations per image "
+                          "quick = 28 fixed singles + the per-block-size fixed singles (every block size 1k ... 64k: damaged descriptors ; e2fsck -fy, then -b from every location and plain e2fsck; boundary block sizes twice) + 1 fixed pair + one seeded single per (profile, op kind) up to 38 + 10 seeded pairs + 8 seeded triples, at most 5 locations per image "
                           "(first, last, seeded); thorough = all singles + 500 seeded pairs + 400 seeded triples, every location.  evaluations = trace lines decided by TLC; "
                           "non-trivial = (geometry, last tool, location) triples whose location is not group 1" % len(geoms))
         for r in [x for x in res if x["lines"]][:3]:
@@ -871,7 +1015,9 @@ def run(tier):
             "a valid copy = magic, s_block_group_nr = its group, superblock checksum verifies (metadata_csum)",
             "a refused tool run (exit != 0) carries no obligation and is skipped; a tool run (resize2fs, tune2fs [+ the e2fsck it asks for], repairing e2fsck) after which e2fsck -fn is not clean is rejected: the property's experiment presupposes a consistent image (such a run also violates C08 / C11)",
             "environment steps are written by the harness itself: primary-only feature bit (dir_prealloc), zeroed inode-table pointer in the primary descriptors, one flipped block-bitmap bit, stale feature word in the FIRST backup copy (the only one check_backup_super_block looks at); damage to other backup copies is outside the universe",
-            "conformance is checked with the named deviation DevBackupSearchIgnoresSs2 enabled (known finding, fixes/C20_known_findings.txt): e2fsck's own backup search probes groups 1, 3, 5, 7, 9, 25, ... and takes the first superblock-looking block, whatever s_backup_bgs says and however stale; every behaviour in which that search ran is validated a second time with the deviation off, and a rejection there is reported as the known finding",
+            "conformance is checked with the named deviations of e2fsck's own backup search enabled: DevBackupSearchIgnoresSs2 (known finding: the search probes groups 1, 3, 5, 7, 9, 25, ... and takes the first superblock-looking block, whatever s_backup_bgs says and however stale) and DevSearchGuesses8xBs (without a superblock the group size is guessed as 8 * blocksize, which no filesystem with 8k ... 64k blocks has; fixes/C20_backup_search_bpg.patch); every behaviour in which that search ran is validated a second time with every deviation off, and a rejection there is attributed by TLC (accepted with exactly one deviation enabled) and reported under that deviation's key",
+            "plain e2fsck is obliged when blocks per group = min(8 * blocksize, 65528), the group size mke2fs chooses by default (8 * blocksize is not a legal group size from 8k blocks on); the image file is exactly as large as the filesystem (get_backup_sb derives its probe limit from the device size)",
+            "block sizes above 4 KiB: sparse image files (0.5 ... 4 GiB per group), 128 inodes per group (-N), no journal; tune2fs -O has_journal is not in the universe there",
             "meta_bg: the primary copy of a descriptor block is zeroed only when the format prescribes a backup of it (the meta group has a second group)",
             "tree equality = digest of the independent reader's tree projection (paths, types, sizes of non-directories, modes, owners, link counts, mtimes, xattrs, content digests); compared as strings by TLC",
         ]
@@ -911,7 +1057,14 @@ def replay(path):
             die_broken("TLC failed (strict cfg): %s\n%s" % (rr2["error"], tail2[-1500:]))
         if rej2:
             what, l = describe_failure(res, matched2 if matched2 is not None else 0)
-            print("KNOWN-FINDING: property=%s accepted only with %s enabled: %s" % (PID, DEV_KEY, what))
+            keys = []
+            for dk, dcfg in DEV_ONLY:
+                rej3, m3, inv3, tail3, rr3 = tracecheck.confirm(behaviour_lines(res), TR_MOD, dcfg, work, timeout=600)
+                if rr3["error"]:
+                    die_broken("TLC failed (%s): %s" % (dk, rr3["error"]))
+                if not rej3:
+                    keys.append(dk)
+            print("KNOWN-FINDING: property=%s accepted only with %s enabled: %s" % (PID, " / ".join(keys or [dk for dk, dcfg in DEV_ONLY]), what))
             return 0
         print("replay accepted by Trace_Backups (conformance and strict cfg)")
         return 0
